@@ -22,6 +22,13 @@ try:
     env0 = dict(os.environ, PYTHONHASHSEED="0")
     a = sh("/venv/bin/python _equiv.py", cwd=wt, env=env0)
     r = sh(f"git apply {patch}", cwd=wt); res["apply_rc"] = r.returncode
+    if r.returncode:
+        # written against the commit before the latest fix: commit: use that base for this patch
+        sh(f"git -C /repo worktree remove --force {wt}")
+        r = sh(f"git -C /repo worktree add -q --detach {wt} {os.environ.get('BENIGN_BASE', '2aa206d')}")
+        shutil.copy(equiv, os.path.join(wt, "_equiv.py"))
+        a = sh("/venv/bin/python _equiv.py", cwd=wt, env=env0)
+        r = sh(f"git apply {patch}", cwd=wt); res["apply_rc"] = r.returncode; res["base"] = "2aa206d"
     if r.returncode: res["apply_out"] = r.stdout[-500:]
     b = sh("/venv/bin/python _equiv.py", cwd=wt, env=env0)
     res["transcripts_identical"] = (a.stdout == b.stdout and a.returncode == b.returncode)
